@@ -195,7 +195,11 @@ def monitors(role: str, g: Ghost, ev: Event, rec: Rec, viol: t.List[t.Tuple[str,
         return g
     # (h) a refused call changes nothing visible
     if is_call and not accepted and post != pre:
-        flag("C08", f"h-refused-call-changed-state:{role}:{name}:{pre.name}->{post.name}", f"{role} {name}({i}) was refused but state went {pre.name} -> {post.name}")
+        if role == "server" and pre == S.BEFORE_OPEN and post == S.OPENED and name != "unbind":
+            # one call site: any refused response call on a server that has seen no traffic
+            flag("C08", "h-refused-response-opens-fresh-server", f"server {name}({i}) was refused but state went BEFORE_OPEN -> OPENED")
+        else:
+            flag("C08", f"h-refused-call-changed-state:{role}:{name}:{pre.name}->{post.name}", f"{role} {name}({i}) was refused but state went {pre.name} -> {post.name}")
     is_bindreq = accepted and ((role == "client" and is_call and name.startswith("bind_")) or (role == "server" and kind == "recv" and name == "BindReq"))
     is_final_bindresp = accepted and (
         (role == "server" and is_call and name in ("bind_response-ok", "bind_response-bad"))
